@@ -357,6 +357,14 @@ def check(ctx, want="C12"):
             ctx.rng.shuffle(data)
             jobs.append({"proto": "ipfix", "workers": wn, "seed": ctx.seed * 1000 + 400 + wn, "udpsize": 40000, "templates": [{"exp": exp, "buf": tpl}],
                          "data": data, "lazy": lazy, "poison": []})
+    # the producer 1000 messages behind: its queue is full, what the workers encode from then on is dropped - and nothing else
+    # happens to it or to its datagram (the consumer takes nothing before the end of the run)
+    for proto in ([] if mirror_only else PROTOS):
+        j = make_job(ctx, proto, 2, ctx.seed * 1000 + 450, {"ipfix": 2600, "netflow9": 2600, "netflow5": 4500, "sflow": 1700}[proto])
+        j["lazy"] = 10 ** 9
+        j["poison"] = []
+        j["mqfull"] = True
+        jobs.append(j)
     # mirroring enabled (ipfix and sflow have it): the copies taken by the mirror workers, and the mirror queue full
     for proto in ("ipfix", "sflow"):
         for k, mode in enumerate(["on", "full"] * (3 if thorough else 1)):
@@ -392,6 +400,11 @@ def check(ctx, want="C12"):
                               "produces: %s" % (proto, job["workers"], pb[:160]), dict(case, payload=pb.decode("utf-8", "replace")[:1500]),
                               key=proto + ":payload")
                 break
+        if job.get("mqfull"):
+            nexp, npub = sum(1 for e in exp if e), len(r.get("payloads") or [])
+            if nexp <= 1000:
+                raise vlib.Infra("the queue-full run of %s has only %d datagrams that yield a message" % (proto, nexp))
+            ctx.extra.setdefault("producer_queue_full_runs", []).append({"proto": proto, "datagrams_yielding_a_message": nexp, "published": npub})
         rows.append({"ev": "Reset"})
         index.append((job, None))
         for k, e in enumerate(r["events"]):
